@@ -12,7 +12,7 @@
    of the case; exactly for integers (indices, ranks, inside/outside, node counts), 1e-9 relative
    for coordinates.
 """
-import json, math, os, random, subprocess, collections, shutil
+import json, math, os, random, collections, time, types, multiprocessing, concurrent.futures
 import vlib
 from vlib import Check, Broken, log
 
@@ -134,8 +134,8 @@ class Conjugator:
 class CaseWriter:
     """Turns the records printed by TLC into the input lines of the harness (as emitted + conjugated)."""
 
-    def __init__(self, path, conj_every, seed):
-        self.f = open(path, "w")
+    def __init__(self, paths, conj_every, seed):
+        self.fs = [open(p, "w") for p in paths]
         self.n = 0
         self.ntlc = 0
         self.gids = {}
@@ -161,6 +161,8 @@ class CaseWriter:
         for k, val in v.items():
             if isinstance(val, dict) and "d" in val and ("n" in val or "ns" in val):
                 base[k] = rat(val)
+        if "F" in base:           # a length (i*dx), not a decision: compared as a real
+            base["F"] = [float(x) for x in base["F"]]
         ang = [code_deg(a) for a in g["ang"]]
         if nd == 2:
             ang = [ang[0], 0.0]
@@ -205,11 +207,12 @@ class CaseWriter:
     def write(self, c, gk):
         c["id"] = self.n
         c["gid"] = self.gid(gk)
-        self.f.write(json.dumps(c, separators=(",", ":")) + "\n")
+        self.fs[c["gid"] % len(self.fs)].write(json.dumps(c, separators=(",", ":")) + "\n")
         self.n += 1
 
     def close(self):
-        self.f.close()
+        for f in self.fs:
+            f.close()
 
 
 # --------------------------------------------------------------------------- comparison
@@ -288,8 +291,8 @@ def signature(case, q, obs, exp):
     return None
 
 
-def run_harness(ck, exe, casep, obsp, ncases):
-    """Runs the harness over the whole file, restarting after a case in which the library crashed."""
+def run_harness_shard(exe, casep, obsp):
+    """Runs the harness over one shard, restarting after a case in which the library crashed."""
     start = 0
     crashes = []
     for attempt in range(50):
@@ -303,14 +306,12 @@ def run_harness(ck, exe, casep, obsp, ncases):
         if "crash" not in rec:
             raise Broken("grid_run stopped without a crash record: " + r.stderr[-500:])
         crashes.append(rec)
-        start = rec["id"] + 1
-    raise Broken("grid_run: more than 50 crashing cases")
+        start = rec["line"] + 1
+    raise Broken("grid_run: more than 50 crashing cases in one shard")
 
 
-def compare(ck, casep, obsp, stats):
-    """Lock-step comparison of the cases and of what the library answered."""
-    # convention of migrate (the documentation does not say which kind of cell it uses): the one that
-    # explains most of the migrations of this run (both are cells that geometrically contain the point)
+def migrate_votes(args):
+    casep, obsp = args
     votes = collections.Counter()
     with open(casep) as fc, open(obsp) as fo:
         for lc, lo in zip(fc, fo):
@@ -321,33 +322,38 @@ def compare(ck, casep, obsp, stats):
             for conv in ("rcs", "ris"):
                 if got == c[conv]:
                     votes[conv] += 1
-    conv = "ris" if votes["ris"] > votes["rcs"] else "rcs"
-    stats["migrate_cell_convention"] = {"rcs": "cell with its node at the lower corner (centered=false)",
-                                        "ris": "cell centred on its node"}[conv]
-    api_count = collections.Counter()
-    kind_count = collections.Counter()
-    nvalues = 0
-    ncmp = 0
-    nrot = 0
+    return votes
+
+
+def compare_shard(args):
+    """Lock-step comparison of the cases of one shard and of what the library answered.
+    Returns the disagreements [(case id, rec, replay or None)] and the counters."""
+    casep, obsp, conv, known = args
+    matcher = types.SimpleNamespace(known=known)
+    out = {"dis": [], "api": collections.Counter(), "kind": collections.Counter(), "values": 0, "cases": 0, "rot": 0,
+           "samples": [], "error": None}
+    nreplay = 0
     with open(casep) as fc, open(obsp) as fo:
         for lc in fc:
             lo = fo.readline()
             if not lo:
-                raise Broken("grid_run produced fewer lines than cases")
+                out["error"] = "grid_run produced fewer lines than cases"
+                return out
             c, o = json.loads(lc), json.loads(lo)
             if c["id"] != o.get("id"):
-                raise Broken("grid_run output out of step at case %s" % c["id"])
+                out["error"] = "grid_run output out of step at case %s" % c["id"]
+                return out
             k = c["k"]
-            kind_count[k] += 1
-            ncmp += 1
+            out["kind"][k] += 1
+            out["cases"] += 1
             attrs = describe(c)
             if attrs["rotated"]:
-                nrot += 1
+                out["rot"] += 1
             bad = []          # (api key, observed, expected)
             if "crash" in o or "exception" in o:
-                bad.append(("crash", o.get("crash", o.get("exception")), None))
+                bad.append(("crash@" + k, o.get("crash", o.get("exception")), None))
             for key, obs in o.items():
-                if key in ("id", "crash", "exception"):
+                if key in ("id", "crash", "exception", "line"):
                     continue
                 q, _, api = key.partition("@")
                 if q == "null":
@@ -358,41 +364,37 @@ def compare(ck, casep, obsp, stats):
                 else:
                     exp, ok = lookup(c, q)
                 if not ok:
-                    raise Broken("grid_run key %s has no counterpart in the %s case" % (key, k))
-                api_count[k + ":" + key] += 1
-                nvalues += count_values(exp)
+                    out["error"] = "grid_run key %s has no counterpart in the %s case" % (key, k)
+                    return out
+                out["api"][k + ":" + key] += 1
+                out["values"] += count_values(exp)
                 if not same(obs, exp):
                     bad.append((key, obs, exp))
             if not bad:
-                if k in ("node", "point", "multiple") and c["g"]["nd"] > 1:
-                    ck.sample({"case": {f: c[f] for f in c if f not in ("XS", "PS", "gid", "zero", "one")},
-                               "observed": {f: o[f] for f in list(o)[:8]}}, cap=4)
+                if len(out["samples"]) < 2 and k in ("node", "point", "multiple") and c["g"]["nd"] > 1 and c["id"] % 7 == 0:
+                    out["samples"].append({"case": {f: c[f] for f in c if f not in ("XS", "PS", "gid", "zero", "one", "R")},
+                                           "observed": {f: o[f] for f in list(o)[:8]}})
                 continue
             # partition the failing entry points of this case into known findings and the rest
             groups = {}
             for key, obs, exp in bad:
                 q, _, api = key.partition("@")
                 rec = dict(attrs, quantity=q, api=api, signature=signature(c, q, obs, exp))
-                kf = ck.known_match(rec)
+                kf = Check.known_match(matcher, rec)
                 groups.setdefault(kf["id"] if kf else None, []).append((rec, key, obs, exp))
             for fid, items in groups.items():
                 rec = dict(items[0][0])
                 rec["apis"] = sorted(set(i[0]["api"] for i in items))
-                replay = {"case": c, "failing": [{"key": key, "observed": obs, "expected": exp} for _, key, obs, exp in items[:12]],
-                          "how": "write the object 'case' on one line of a file F and run: .build/bin/grid_run F out.ndjson"}
-                ck.disagree(rec, replay)
-    if fo_has_more(obsp, ncmp):
-        raise Broken("grid_run produced more lines than cases")
-    stats["api_count"] = api_count
-    stats["kind_count"] = kind_count
-    stats["values"] = nvalues
-    stats["cases"] = ncmp
-    stats["cases_on_rotated_grids"] = nrot
-
-
-def fo_has_more(path, n):
-    with open(path) as f:
-        return sum(1 for _ in f) != n
+                replay = None
+                if fid is None and nreplay < 25:
+                    nreplay += 1
+                    replay = {"case": c,
+                              "failing": [{"key": key, "observed": obs, "expected": exp} for _, key, obs, exp in items[:12]],
+                              "how": "write the object 'case' on one line of a file F and run: .build/bin/grid_run F out.ndjson"}
+                out["dis"].append((c["id"], rec, replay))
+        if fo.readline():
+            out["error"] = "grid_run produced more lines than cases"
+    return out
 
 
 def run(tier):
@@ -400,10 +402,12 @@ def run(tier):
     vlib.build_lib()
     exe = vlib.build_harness("grid_run")
     w = ck.work
-    casep, obsp = os.path.join(w, "cases.ndjson"), os.path.join(w, "observed.ndjson")
+    nshard = max(1, min(8, vlib.NCPU // 2))
+    caseps = [os.path.join(w, "cases_%d.ndjson" % i) for i in range(nshard)]
+    obsps = [os.path.join(w, "observed_%d.ndjson" % i) for i in range(nshard)]
     workers = int(os.environ.get("VERIF_TLC_WORKERS", "0")) or None
     # 1. TLC: invariants of the model + emission of the cases
-    cw = CaseWriter(casep, conj_every=(2 if tier == "quick" else 1), seed=vlib.seed())
+    cw = CaseWriter(caseps, conj_every=(2 if tier == "quick" else 1), seed=vlib.seed())
     res = vlib.run_tlc("MC_GridGeom", "MC_GridGeom_%s.cfg" % tier, workers=workers, timeout=3000, on_emit=cw.emit,
                        heap="8g")
     cw.close()
@@ -416,23 +420,46 @@ def run(tier):
     for k in KINDS:
         if cw.by_kind[k] == 0:
             raise Broken("vacuous: no case of kind %s" % k)
-    # 2. the real library
-    import time
+    # 2. the real library (one process per shard)
     t0 = time.time()
-    crashes = run_harness(ck, exe, casep, obsp, cw.n)
+    with concurrent.futures.ThreadPoolExecutor(nshard) as ex:
+        crashes = sum(ex.map(lambda i: run_harness_shard(exe, caseps[i], obsps[i]), range(nshard)), [])
     log("[C16] grid_run: %d cases executed in %.1fs (%d crash(es))" % (cw.n, time.time() - t0, len(crashes)))
     # 3. comparison
-    stats = {}
     t0 = time.time()
-    compare(ck, casep, obsp, stats)
+    with multiprocessing.Pool(nshard) as pool:
+        votes = sum(pool.map(migrate_votes, list(zip(caseps, obsps))), collections.Counter())
+        # convention of migrate (its documentation does not say which kind of cell it uses): the one that explains
+        # most of the migrations of this run (both are cells that geometrically contain the point)
+        conv = "ris" if votes["ris"] > votes["rcs"] else "rcs"
+        parts = pool.map(compare_shard, [(caseps[i], obsps[i], conv, ck.known) for i in range(nshard)])
+    stats = {"api": collections.Counter(), "kind": collections.Counter(), "values": 0, "cases": 0, "rot": 0}
+    dis = []
+    for p in parts:
+        if p["error"]:
+            raise Broken(p["error"])
+        for f in ("api", "kind"):
+            stats[f].update(p[f])
+        for f in ("values", "cases", "rot"):
+            stats[f] += p[f]
+        dis += p["dis"]
+        for smp in p["samples"]:
+            ck.sample(smp, cap=4)
+    if stats["cases"] != cw.n:
+        raise Broken("%d cases compared for %d written" % (stats["cases"], cw.n))
+    dis.sort(key=lambda d: d[0])
+    for cid, rec, replay in dis:
+        ck.disagree(rec, replay if replay is not None else {"case_id": cid})
     log("[C16] compared %d cases / %d values in %.1fs" % (stats["cases"], stats["values"], time.time() - t0))
     summary = collections.Counter(json.dumps({k: v for k, v in rec.items() if k != "api"}, sort_keys=True)
                                   for rec, _ in ck.violations)
     for text, n in summary.most_common(40):
         log("   %6d x %s" % (n, text))
+    # keep the violations that carry a replay first (finish() writes the first 20)
+    ck.violations.sort(key=lambda v: 0 if "case" in v[1] else 1)
     for k, apis in REQUIRED.items():
         for a in apis:
-            if stats["api_count"][k + ":" + a] == 0:
+            if stats["api"][k + ":" + a] == 0:
                 raise Broken("vacuous: entry point %s never exercised in %s cases" % (a, k))
     ck.cov["states"] = res.distinct
     ck.cov["transitions"] = res.generated
@@ -440,11 +467,13 @@ def run(tier):
     ck.cov["grids"] = cw.by_kind["grid"]
     ck.cov["traces_validated_against_impl"] = stats["cases"]
     ck.cov["evaluations"] = stats["values"]
-    ck.cov["distinct_nontrivial"] = stats["cases_on_rotated_grids"]
+    ck.cov["distinct_nontrivial"] = stats["rot"]
     ck.cov["cases_conjugated_by_arbitrary_rotation"] = cw.nconj
-    ck.cov["entry_points_exercised"] = len(set(a.split(":", 1)[1].split("@", 1)[1] for a in stats["api_count"]))
-    ck.cov["comparisons_by_kind"] = dict(stats["kind_count"])
-    ck.cov["migrate_cell_convention_observed"] = stats["migrate_cell_convention"]
+    ck.cov["entry_points_exercised"] = len(set(a.split(":", 1)[1].split("@", 1)[1] for a in stats["api"]))
+    ck.cov["comparisons_by_kind"] = dict(stats["kind"])
+    ck.cov["migrate_cell_convention_observed"] = {"rcs": "cell with its node at the lower corner (centered=false)",
+                                                   "ris": "cell centred on its node"}[conv]
+    ck.cov["library_crashes"] = len(crashes)
     ck.cov["mc_config"] = "spec/MC_GridGeom_%s.cfg" % tier
     ck.cov["rule"] = ("every case of GridGeom.tla within the constants of the tier (all grids x all nodes x all off-border "
                       "quarter-lattice points x all derived grids), expected values computed exactly by TLC; each case executed "
